@@ -363,7 +363,7 @@ func scenario(t target, dk deltaKind) e1lib.Scenario {
 			rt.Recv("h:localPrefix?", localPrefix)
 			T := t.T
 			if t.dynamic && !t.initial {
-				T = rt.Recv("h:T1?", tForMover)
+				T = awaitDraw("h:T1?", tForMover, t.Tmax)
 			}
 			d := delta(T)
 			if d < 0 || t.move < 0 {
@@ -381,7 +381,7 @@ func scenario(t target, dk deltaKind) e1lib.Scenario {
 		})
 		T := t.T
 		if t.dynamic && !t.initial {
-			T = rt.Recv("h:T2?", tForMain)
+			T = awaitDraw("h:T2?", tForMain, t.Tmax)
 		}
 		vtime.Sleep(end(T))
 		rt.Log("closing t=%d", now())
@@ -433,6 +433,8 @@ func scenario(t target, dk deltaKind) e1lib.Scenario {
 				closingSeen = true
 			case strings.HasPrefix(l, "handle "):
 				handled++
+			case l == "no-draw":
+				return []rt.Finding{{Key: "c14:timeout-func-not-consulted", What: fmt.Sprintf("state %s declares a TimeoutFunc; the conforming prefix was sent at time 0 but the engine had not drawn a timeout for the state one second later; %v", stateTag(&t), tailLogs(r.Logs))}}
 			case strings.HasPrefix(l, "prefix-senderr"):
 				return []rt.Finding{{Key: "c14:harness-prefix-refused", What: l}}
 			}
@@ -500,6 +502,19 @@ func scenario(t target, dk deltaKind) e1lib.Scenario {
 	return e1lib.Scenario{Name: name, Body: body, Check: check, Cfg: rt.Config{Horizon: horizon, MaxSteps: 400000}}
 }
 
+// awaitDraw waits for the value the engine draws on entering a TimeoutFunc state (the prefix
+// runs at virtual time 0, so one second is ample).
+func awaitDraw(pos string, c chan time.Duration, fallback time.Duration) time.Duration {
+	s := rt.NewSel(pos, false)
+	rt.SelRecvCase(s, c)
+	rt.SelRecvCase(s, vtime.After(time.Second))
+	if s.Choose() == 0 {
+		return rt.SelVal(s, c)
+	}
+	rt.Log("no-draw")
+	return fallback
+}
+
 func tailLogs(s []string) []string {
 	if len(s) > 12 {
 		return s[len(s)-12:]
@@ -546,6 +561,7 @@ func TestC14(t *testing.T) {
 	e1lib.Main(t, "C14", func(thorough bool) []e1lib.Scenario {
 		var scs []e1lib.Scenario
 		ts, _ := allTargets()
+		full := map[string]bool{"chain-sync/NtN": true, "block-fetch/NtN": true, "tx-submission/NtN": true, "local-tx-monitor/NtC": true, "handshake/NtN": true, "keep-alive/NtN": true}
 		for _, x := range ts {
 			if x.T > 0 && x.T < time.Second || x.nextT > 0 && x.nextT < time.Second {
 				panic(fmt.Sprintf("%s %s: timeouts below 1 s are not supported by the harness's 1 ms grace", x.id, x.state.Name))
@@ -581,7 +597,13 @@ func TestC14(t *testing.T) {
 			if x.move >= 0 {
 				add(dZero, b, b)
 				add(dBefore, b, b)
-				add(dAt, b, b)
+				// the race between the timer and the arriving move: two deviations in thorough for
+				// the structurally different families
+				if thorough && !big && full[x.id[:strings.LastIndex(x.id, "/")]] {
+					add(dAt, 1, 2)
+				} else {
+					add(dAt, b, b)
+				}
 				add(dAfter, b, b)
 			}
 			add(dNever, b, b)
